@@ -52,19 +52,19 @@ Read == /\ R.e = "r" /\ R.n > 0 /\ R.n <= R.req
         /\ delivered' = [delivered EXCEPT ![i] = @ + R.n]
         /\ UNCHANGED <<sent, wclosed, rstat, corrupted, integrity>>
 Eof == /\ R.e = "eof"
-       /\ rstat[i] = "err" \/ (wclosed[i] /\ delivered[i] = sent[i])   \* clean EOF only after everything; after an error Ok(0) is harmless
+       /\ (rstat[i] # "err" => (wclosed[i] /\ delivered[i] = sent[i])) = TRUE   \* clean EOF only after everything; after an error Ok(0) is harmless
        /\ rstat' = [rstat EXCEPT ![i] = IF @ = "err" THEN "err" ELSE "eof"]
        /\ UNCHANGED <<sent, delivered, wclosed, corrupted, integrity>>
 ReadErr == /\ R.e = "rerr" /\ corrupted[i] /\ rstat[i] # "eof"     \* no failure without a fault
            /\ rstat' = [rstat EXCEPT ![i] = "err"]
            /\ UNCHANGED <<sent, delivered, wclosed, corrupted, integrity>>
 Quiesce == /\ R.e = "quiesce"
-           /\ (R.up[1] /\ R.up[2]) =>
+           /\ ((R.up[1] /\ R.up[2]) =>
                 \A k \in 1..2 :
                   IF R.hit[k] /\ integrity
                   THEN (wclosed[k] => rstat[k] = "err") /\ rstat[k] # "eof"
-                  ELSE /\ R.hit[k] \/ (delivered[k] = sent[k] /\ rstat[k] # "err")
-                       /\ (wclosed[k] /\ ~R.hit[k] => rstat[k] = "eof")
+                  ELSE /\ (~R.hit[k] => (delivered[k] = sent[k] /\ rstat[k] # "err"))
+                       /\ (wclosed[k] /\ ~R.hit[k] => rstat[k] = "eof")) = TRUE
            /\ UNCHANGED <<sent, delivered, wclosed, rstat, corrupted, integrity>>
 Next == l <= NRec /\ l' = l + 1 /\ (Reset \/ Hs \/ Write \/ Noop \/ Close \/ Corrupt \/ Read \/ Eof \/ ReadErr \/ Quiesce)
 Spec == Init /\ [][Next]_vars
